@@ -352,6 +352,30 @@ theorem transformation_frozen_run (s : SchedState) (d : ℕ) (hist : List Bool) 
     · exact ⟨a1, a2, a3, a4, a5⟩
     · exact b a ha
 
+/-- **C06 / step size after warmup, over whole histories**: from draw `num_tune` on, for EVERY
+    further history, no step-size estimator is advanced, the search is never re-run and every draw
+    sets the step size from the averaged iterate; the state is marked non-tuning after the first
+    such draw and nothing else in it changes. -/
+theorem stepsize_frozen_run (s : SchedState) (d : ℕ) (hist : List Bool) (h : d ≥ p.numTune) :
+    (∀ a ∈ (schedRun p s d hist).2, a.est = .none ∧ a.useBest = some true ∧ a.reinit = false) ∧
+    (hist ≠ [] → (schedRun p s d hist).1 = { s with tuning := false }) := by
+  induction hist generalizing s d with
+  | nil => simp [schedRun]
+  | cons g gs ih =>
+    have h1 := step_after_warmup p s d g h
+    have h2 := ih (schedStep p s d g).1 (d + 1) (by omega)
+    simp only [schedRun]
+    refine ⟨?_, fun _ => ?_⟩
+    · intro a ha
+      rcases List.mem_cons.mp ha with rfl | ha
+      · rw [h1]; simp
+      · exact h2.1 a ha
+    · cases gs with
+      | nil => simp [schedRun, h1]
+      | cons x xs =>
+        have := h2.2 (by simp)
+        rw [this, h1]
+
 /-- `next_window_size > current_window_size` for every growth factor (so windows never shrink). -/
 theorem nextWindow_grows (growth : ℝ) (c : ℕ) : c < nextWindowOf growth c := by
   unfold nextWindowOf; exact Nat.lt_of_lt_of_le (Nat.lt_succ_self c) (Nat.le_max_left _ _)
